@@ -470,15 +470,22 @@ impl DateFilter for ds::MonthdayRange {
                     ));
                 }
 
-                Some(next_change_from_bounds(
-                    date,
-                    (year - 1..=year + 10)
-                        .filter_map(|y| bounds_on_year(*start, *end, y).0)
-                        .map(|d| start_offset.apply(d)),
-                    (year - 1..=year + 10)
-                        .filter_map(|y| bounds_on_year(*start, *end, y).1)
-                        .map(|d| end_offset.apply(d)),
-                ))
+                // Bounds are only projected up to `year + 10`: nothing is known of what
+                // comes after, in particular of a bound with a year further away
+                let horizon = NaiveDate::from_ymd_opt(year + 10, 1, 1)?;
+
+                Some(
+                    next_change_from_bounds(
+                        date,
+                        (year - 1..=year + 10)
+                            .filter_map(|y| bounds_on_year(*start, *end, y).0)
+                            .map(|d| start_offset.apply(d)),
+                        (year - 1..=year + 10)
+                            .filter_map(|y| bounds_on_year(*start, *end, y).1)
+                            .map(|d| end_offset.apply(d)),
+                    )
+                    .min(horizon),
+                )
             }
         }
     }
